@@ -1,5 +1,5 @@
 (* C11 — errors surface unwrapped; partial results are exactly the completed work. *)
-From HG Require Import Base Rename Engine Exec EngineProofs Nested NestedProofs Samples.
+From HG Require Import Base Rename Engine Exec EngineProofs Nested NestedProofs Provenance Samples.
 From stdpp Require Import gmap.
 
 (* the error a failing superstep reports is the very error raised by a ready node's executor: the
@@ -54,6 +54,30 @@ Theorem C11_keeps_earlier : forall exec r g snap pv rd e p calls x v,
   vals snap !! x = Some v -> vals p !! x <> None.
 Proof. exact partial_keeps_earlier. Qed.
 Print Assumptions C11_keeps_earlier.
+
+(* "only values of nodes that completed": every value of the state a FAILED step leaves behind was provided by the caller
+   or written by a node that has completed an execution (any graph, either runner) ... *)
+Theorem C11_partial_provenance : forall exec g pv,
+  (forall n s ins outs dec, exec n s ins = OOk outs dec -> forall k, In k (dkeys outs) -> In k (n_outputs n)) ->
+  forall r snap rd e p calls,
+  (forall n, In n rd -> In n (g_nodes g)) -> Prov g pv snap ->
+  superstep exec r g snap pv rd = (SErr e p, calls) -> Prov g pv p.
+Proof. exact failed_state_prov. Qed.
+Print Assumptions C11_partial_provenance.
+
+(* ... hence no output whose producers have never completed - the failing node's own outputs on its first execution, and
+   whatever can only be computed through them - appears in the FAILED result *)
+Theorem C11_no_unfinished_output : forall exec g pv,
+  (forall n s ins outs dec, exec n s ins = OOk outs dec -> forall k, In k (dkeys outs) -> In k (n_outputs n)) ->
+  forall r snap rd e p calls x,
+  (forall n, In n rd -> In n (g_nodes g)) -> Prov g pv snap ->
+  superstep exec r g snap pv rd = (SErr e p, calls) ->
+  dmem pv x = false ->
+  (forall m, In m (g_nodes g) -> In x (n_outputs m) -> execs snap !! n_name m = None /\
+      forall m', In m' rd -> n_name m' = n_name m -> ~ step_ok exec g snap pv m') ->
+  vals p !! x = None.
+Proof. exact failed_no_output_of_unfinished. Qed.
+Print Assumptions C11_no_unfinished_output.
 
 Example C11_nonvacuous :
   let ft := [(1, FSym 10); (2, FRaise 77); (3, FSym 12); (4, FSym 14)]%positive in
